@@ -63,3 +63,7 @@ Qed.
 (* every entity of a file with a module is entered in the sc_table *)
 Theorem C15_every_entity_entered : forall f k, In k (entity_keys f) -> exists p, In (k, ScEntity (sf_id f) p) (file_entries f).
 Proof. exact every_entity_entered. Qed.
+(* the primitive types are in the table too, entered first under their keywords: what the files enter wins over them, in every order *)
+Theorem C15_lookup_with_primitives_order_independent : forall prims fs fs' k,
+  redef_report fs = [] -> Permutation fs fs' -> sc_lookup k (sc_table_with prims fs) = sc_lookup k (sc_table_with prims fs').
+Proof. exact lookup_with_primitives_order_independent. Qed.
